@@ -41,11 +41,16 @@ LEVEL_TEXT = ("PARTIAL. Proved for all sizes: (C02_qr_gray, C02_qr_sandwich, C02
 LEVEL_NOTE = ("Trusted: Lean kernel; scipy cossin, numpy eig/svd (_closest_unitary), qiskit UnitaryGate/UCRZ/UCRY/UCGate/MCX/"
               "MCMT/_apply_a2 and Operator (specified, validated numerically each run, not verified); IEEE floats vs exact "
               "algebra (1e-7); the hand model equals the code beyond the explored sizes only by uniformity of the recursion.")
-LEAN_TARGETS = ["QclibModel.Props.C02"]
+LEAN_TARGETS = ["QclibModel.Props.C02", "QclibModel.Props.C02QR"]
 THEOREMS = ["Qclib.C02_qr_gray", "Qclib.C02_qr_sandwich", "Qclib.C02_qr_undo", "Qclib.C02_qr_orientation",
             "Qclib.C02_csd_nolast", "Qclib.C02_csd_step", "Qclib.C02_csd_negRightHalf", "Qclib.C02_demux",
             "Qclib.C02_demux_rz", "Qclib.C02_iso_columns", "Qclib.C02_matrix_semantics", "Qclib.C02_middle_placed",
-            "Qclib.C02_csd_node", "Qclib.C02_qsd_full", "Qclib.C02_qsd_iso_full", "Qclib.C02_csd_full"]
+            "Qclib.C02_csd_node", "Qclib.C02_qsd_full", "Qclib.C02_qsd_iso_full", "Qclib.C02_csd_full",
+            # the whole Givens sweep of the QR decomposition (Props/C02QR.lean)
+            "Qclib.C02_qr_step", "Qclib.C02_qr_sequence", "Qclib.C02_qr_triangular", "Qclib.C02_qr_residual",
+            "Qclib.C02_qr_locate", "Qclib.C02_qr_residual_default", "Qclib.C02_qr_residual_located",
+            "Qclib.C02_qr_code_sequence", "Qclib.C02_qr_full", "Qclib.C02_qr_full_exact", "Qclib.C02_qr_rotation_amp",
+            "Qclib.C02_qr_circuit", "Qclib.C02_qr_residual_unlocated_before_fix", "Qclib.C02_qr_circuit_raises_before_fix"]
 TRUSTED = [
     "scipy.linalg.cossin(X, separate=True) returns (u1,u2), theta, (v1h,v2h) with X = diag(u1,u2) [[C,-S],[S,C]] diag(v1h,v2h), "
     "blocks unitary (re-checked numerically on every call)",
@@ -536,7 +541,70 @@ def tie_qr(ctx, nmax):
         ctx.tie({"op": "qr", "n": n, "pairs": pairs}, qr_lines(circ), label=f"qr whole n={n}")
 
 
+QR_LOCATE_DRIVER = "Drivers/C02QR.lean"
+
+
+def tie_qr_locate(ctx):
+    """`_get_row_col` (which two levels does a factor of the Givens sequence act on?) against the executable model
+    Model/QrLocate.lean: only the class of an entry matters to the search (== 0, == 1, anything else), so the matrix is sent as
+    class codes 0 / 1 / 2.  Cases: every two-level rotation (generic element, element exactly 1, element exactly 0), the residual
+    diag(1, .., 1, phase) alone (F-C02-4: located at the last two levels by default) and with a rounding-noise entry at every
+    position below the diagonal, and random code matrices.  Model line: `row col`."""
+    import numpy as np
+    from unittest import mock
+    import qclib.unitary as qu
+    val = {0: 0.0, 1: 1.0, 2: 0.3 + 0.4j}
+    r = ctx.rng
+
+    def one(n, codes, label):
+        N = 2 ** n
+        m = np.array([[val[c] for c in rw] for rw in codes], dtype=complex)
+        seen = []
+        orig = qu._row_and_col_qubits
+
+        def spy(col, n_qubits, row):
+            seen.append((int(row), int(col)))
+            return orig(col, n_qubits, row)
+        try:
+            with mock.patch.object(qu, "_row_and_col_qubits", spy):
+                blk = qu._get_row_col(m, n)[0]
+            row, col = seen[-1]
+            want = np.array([[m[col][col], m[col][row]], [m[row][col], m[row][row]]])
+            lines = [f"{row} {col}"]
+            if not np.array_equal(np.asarray(blk), want):
+                lines.append("block-is-not-the-located-one")
+        except Exception as e:  # noqa: BLE001
+            lines = [f"raises {type(e).__name__}"]
+        ctx.tie({"op": "locate", "N": N, "codes": codes}, lines, label=f"qr-locate {label} N={N}", driver=QR_LOCATE_DRIVER)
+        ctx.count(f"qr-locate:{label}")
+
+    def ident(N):
+        return [[1 if i == j else 0 for j in range(N)] for i in range(N)]
+
+    for n in (1, 2, 3):
+        N = 2 ** n
+        for row in range(N):
+            for col in range(row):
+                for b, nm in ((2, "generic"), (1, "element-exactly-1"), (0, "element-exactly-0")):
+                    c = ident(N)
+                    c[col][col], c[row][row] = (2, 2) if b == 2 else (0, 0) if b == 1 else (1, 2)
+                    c[row][col] = c[col][row] = b
+                    one(n, c, "rotation:" + nm)
+        res = ident(N)
+        res[N - 1][N - 1] = 2
+        one(n, res, "residual-exact")
+        one(n, ident(N), "identity")
+        for row in range(N):
+            for col in range(row):
+                c = [rw[:] for rw in res]
+                c[row][col] = 2
+                one(n, c, "residual+noise:" + ("last-row" if row == N - 1 else "other-row"))
+        for _ in range(20 if ctx.quick else 100):
+            one(n, [[r.choice((0, 0, 1, 2)) for _ in range(N)] for _ in range(N)], "random-codes")
+
+
 def run_tie(ctx):
+    tie_qr_locate(ctx)
     nmax = 4 if ctx.quick else 5
     fams = ["haar", "identity", "real_orthogonal", "block_equal", "hadamard", "tensor", "diag_phases", "permutation"]
     for n in range(1, nmax + 1):
@@ -785,7 +853,36 @@ def boundary_jobs(ctx):
     return jobs
 
 
+def probe_qr_exact(ctx):
+    """Regression probe of F-C02-4: unitaries without zero entries whose Givens sweep is exact in floating point, so that the
+    residual is exactly diag(1, .., 1, phase) with nothing below the diagonal (the code used to find the residual's levels only
+    through rounding noise and raised UnboundLocalError here)."""
+    import numpy as np
+    from qiskit.quantum_info import Operator
+    import qclib.unitary as qu
+    a = np.array([[1 + 1j, 1 + 1j], [1 + 1j, -1 - 1j]]) / 2
+    b = np.array([[3, 4], [4, -3]]) / 5
+    c = np.array([[0.6, 0.8j], [0.8j, 0.6]])
+    mats = {"(1+i)H/sqrt2": a, "3-4-5": b, "i*3-4-5": 1j * b, "0.6,0.8i": c, "kron(a,a)": np.kron(a, a), "kron(b,a)": np.kron(b, a),
+            "kron(c,b)": np.kron(c, b), "kron(a,b,c)": np.kron(np.kron(a, b), c)}
+    for name, u in mats.items():
+        n = int(round(math.log2(len(u))))
+        key = f"unitary-qr:exactly-representable:n={n}:{name}"
+        rep = {"call": "qclib.unitary.unitary(U, 'qr')", "U": [[[float(z.real), float(z.imag)] for z in row] for row in u], "name": name}
+        ctx.count("boundary:qr-residual-exactly-diagonal")
+        try:
+            err = float(np.abs(Operator(qu.unitary(np.array(u, dtype=complex), "qr")).data - u).max())
+        except Exception as e:  # noqa: BLE001
+            ctx.fail(f"unitary-raises:qr:residual-exactly-diagonal:n={n}:{name}", f"unitary(U, 'qr') raised {type(e).__name__}: {e}", rep)
+            continue
+        if err > TOL:
+            ctx.fail(key, f"max |Operator - U| = {err:.3e}", rep)
+        else:
+            ctx.ok(key, nontrivial=n >= 2)
+
+
 def probe_findings(ctx):
+    probe_qr_exact(ctx)
     """Concrete inputs of recorded findings, probed on every run (F-C02-1 fixed: one-qubit QR; the A.2 precision loss)."""
     jobs = [("unitary", 1, "haar", 11, "qr", 0, False), ("unitary", 1, "real_orthogonal", 12, "qr", 0, False),
             ("unitary", 2, "near_special_zz", 0, "qsd", 0, True), ("unitary", 3, "near_special_zz", 0, "qsd", 0, True),
